@@ -18,7 +18,6 @@ NOTE = {
     "C08-m6": "missed: needs a '/' inside a name and inside a sibling's type so that the joined keys collide; names are one character, types come from a pool",
     "C10-m4": "missed: state leaks between two RDFWriter objects through a module-level cache; every obligation creates one writer and checks it against its own table",
     "C06-m4": "missed by C06's quick tier, which leaves extend to C05 (same harness, frame assertion included): C05.extend reports it; C06's thorough tier runs values_extend itself",
-    "C06-m5": "missed: needs a Section with an already resolved link that is then assigned a path that does not exist; the link opcode starts from unlinked Sections",
     "C16-m4": "missed by construction: an lxml parser option (huge_tree) that matters only for documents nested deeper than ~330 levels",
     "C16-m2": "missed by construction: lxml entry point from_file(stream) on malformed XML (text layer)",
     "C19-m2": "missed by construction: differs only between processes with different hash seeds",
